@@ -299,6 +299,9 @@ func runSchedPolicy(c *vh.Ctx, scen any, h vsched.Harness, bound int, delay bool
 	ex := &vsched.Explorer{T: c.T, H: h, Bound: bound, Delay: delay, Rotate: policy == 1, Reverse: policy == 2, Deadline: c.Deadline, Shard: shard, Shards: shards,
 		OnExec: func(outcome string, tr *vsched.Trace) {
 			c.Outcome(c.Scenario[:strings.IndexAny(c.Scenario+" ", " ")] + "|" + outcome)
+			if tr.Accesses > 0 {
+				c.Count("race_monitor_field_accesses_checked", tr.Accesses)
+			}
 			if f := os.Getenv("VERIF_TRACE"); f != "" && f != "1" {
 				if fh, err := os.OpenFile(f, os.O_APPEND|os.O_CREATE|os.O_WRONLY, 0o644); err == nil {
 					fmt.Fprintf(fh, "%s %v\n", outcome, tr.Choices())
